@@ -33,3 +33,10 @@ claim("C12", "model_checking",
       "pairs on the real RegionCoreTree from pre-filled near-full states, invariant checked in every state.",
       "Region-word meaning as documented in the module docstring; the 2^1.2M subsets cannot be enumerated - coverage is the stated neighbourhoods.",
       "DESIGN.md section 4, C12")
+claim("C15", "exploration",
+      "Every header field over its full width (8-bit tag/coordinates, all 256 port/core bytes, all 65536 commands and sequence "
+      "numbers) against three backgrounds, argument presence patterns x boundary values, payload lengths 0..16/255, decoding of "
+      "every data length 0..20 with every n_args, compared byte-for-byte / slot-for-slot with an encoder and decoder written from "
+      "the documented wire layout (thorough adds pairwise field combinations).",
+      "Fields are varied one (thorough: two) at a time, not in full product; layout reference written in /verif.",
+      "DESIGN.md section 4, C15")
